@@ -39,6 +39,9 @@
                                                   relabel / overwrite; `_partial` under the discipline: never;
                                                   `issue_overwrites_entry_refuted` the witness
         * `frozen_immovable`                      under the same discipline (state invariant `IdInv`)
+        * `frozen_asset_does_not_move`            FULL, unguarded, all categories: a transfer / burn whose sender's
+                                                  entry names a frozen asset CODE is refused (state unchanged);
+                                                  `frozen_asset_not_minted` the same for issue / replenish
   `no_negative_equity` (both variants): the guard it rests on is the RLP encoder's refusal of negative
   big ints (see LemoModel.Assets.putEquity); `rlp_guard_fires_only_on_burn` shows that for EQUITY entries
   the guard is dead on the live model (non-negativity follows from the operations).  Parser: `parse_amount_sign`.
@@ -1817,5 +1820,62 @@ theorem issue_overwrites_entry_refuted :
     (runBlocks true St.empty overwriteWitness).equity 5 35 = some (3, 8) ∧
     ((runBlocks true St.empty overwriteWitness).assets 3).map (·.supply) = some 38 := by decide
 
+
+/-! ## a frozen asset does not move — all categories, no guard -/
+
+/-- `frozen_asset_does_not_move` — FULL, unguarded, either variant, ALL categories: the freeze check of the transfer is
+    keyed by the asset CODE carried by the sender's entry (not by the asset id, which equals the code only for a
+    token asset).  Whatever the id, receiver (account, contract, 0x0 = burn), amount and stable state: if the
+    asset named by the sender's entry is frozen, the transfer is refused, so every equity entry, every asset record
+    (supply included) and every AssetIdState stay exactly as they are. -/
+theorem frozen_asset_does_not_move (fixed : Bool) (stable s : St) (sd rc id ck : Nat) (amt : Option Int)
+    (c : Nat) (e : Int) (r : AssetRec)
+    (hse : s.equity sd id = some (c, e)) (hr : s.assets c = some r) (hf : r.frozen = true) :
+    (∀ s', transfer fixed stable s sd rc id ck amt ≠ .ok s') ∧
+    step fixed stable s (.transfer sd rc id ck amt) = s := by
+  have hno : ∀ s', transfer fixed stable s sd rc id ck amt ≠ .ok s' := by
+    intro s' h
+    obtain ⟨_, c', e', r', _, hse', _, _, hr', hfz, _, _⟩ := transfer_ok h
+    rw [hse] at hse'; injection hse' with hse'; injection hse' with hc _
+    subst hc
+    rw [hr] at hr'; injection hr' with hr'; subst hr'
+    rw [hf] at hfz; cases hfz
+  refine ⟨hno, ?_⟩
+  unfold step
+  split
+  · rename_i s' h
+    simp only [apply] at h
+    exact absurd h (hno s')
+  · rfl
+
+/-- the same for minting: a frozen asset is neither issued nor replenished, whatever its category -/
+theorem frozen_asset_not_minted (stable s : St) (sd rc h code id m : Nat) (amt : Option Int) (r : AssetRec)
+    (hl : lookup s sd code = some r) (hf : r.frozen = true) :
+    (∀ s', issue stable s sd rc h code m amt ≠ .ok s') ∧ (∀ s', replenish stable s sd rc code id amt ≠ .ok s') := by
+  constructor
+  · intro s' hh
+    obtain ⟨_, r', _, _, _, _, _, _, hl', hfz, _⟩ := issue_ok hh
+    rw [hl] at hl'; injection hl' with hl'; subst hl'
+    rw [hf] at hfz; cases hfz
+  · intro s' hh
+    obtain ⟨_, r', _, _, _, hl', hfz, _⟩ := replenish_ok hh
+    rw [hl] at hl'; injection hl' with hl'; subst hl'
+    rw [hf] at hfz; cases hfz
+
+/-- non-vacuity, category 3: account 5 creates the divisible common asset 3 and issues 100 to account 6 under the id 40
+    (the issue tx's hash ≠ the code); frozen, neither a transfer nor a burn moves anything; unfrozen, the same txs do -/
+def freezeWitness : List (List Op) :=
+  [[.create 5 3 3 true true 2 false false],
+   [.issue 5 6 40 3 2 (some 100)],
+   [.modify 5 3 (.set true)],
+   [.transfer 6 3 40 0 (some 1), .transfer 6 0 40 0 (some 1)]]
+
+example :
+    (runBlocks true St.empty freezeWitness).equity 6 40 = some (3, 100) ∧
+    (runBlocks true St.empty freezeWitness).equity 3 40 = none ∧
+    ((runBlocks true St.empty freezeWitness).assets 3).map (·.supply) = some 100 ∧
+    (runBlocks true St.empty (freezeWitness.take 2 ++ freezeWitness.drop 3)).equity 6 40 = some (3, 98) ∧
+    ((runBlocks true St.empty (freezeWitness.take 2 ++ freezeWitness.drop 3)).assets 3).map (·.supply) = some 99 := by
+  decide
 
 end LemoProofs.C12
